@@ -1,5 +1,8 @@
 #!/bin/sh
-# Offline setup: compile the TLC operator overrides and pre-build the Go harness.
+# Offline setup: compile the TLC operator overrides and warm the Go build cache for the harness.
 set -e
 cd "$(dirname "$0")"
 ./tlc/build.sh
+export GOFLAGS=-mod=mod GOPROXY=off GOSUMDB=off GOTOOLCHAIN=local
+(cd harness && go build -tags verif ./... && go build -tags verif,purego ./...)
+echo "setup done"
